@@ -77,6 +77,10 @@ enum Op {
     IntoInner { t: u8, fut: u8 },
     /// `to.clone_from(&from)` on two occupied slots
     CloneFrom { t: u8, from: u8, to: u8 },
+    /// both collectors publish rank `h` (3 INFO .. 5 TRACE) as their max-level hint from now on and
+    /// the interest cache is rebuilt: new spans above it are disabled, existing handles (also
+    /// entered ones) keep driving their collector
+    SetMax { t: u8, h: u8 },
     SwitchDefault { t: u8, sel: Sel },
 }
 #[derive(Clone, Debug, Serialize, Deserialize)]
@@ -249,6 +253,8 @@ struct Model {
     stacks: [Vec<Vec<u64>>; 2],
     /// expected calls per collector for the current op
     want: [Vec<Exp>; 2],
+    /// the process-wide maximum level (rank) the collectors' hints add up to
+    gmax: u8,
 }
 impl Model {
     fn col_of(sel: Sel) -> Option<usize> {
@@ -315,7 +321,8 @@ impl Model {
         }
     }
     fn new_span(&mut self, t: usize, cs: u8, parent: Parent) -> H {
-        if !cs_enabled(cs) {
+        // (the macro looks at the global maximum level first: above it the span is disabled)
+        if !cs_enabled(cs) || [3u8, 4, 5, 1][(cs % 4) as usize] > self.gmax {
             return H::Disabled;
         }
         match Self::col_of(self.default[t]) {
@@ -381,6 +388,7 @@ fn run_case(case: &Case) -> Outcome {
         fresh: case.fresh_ids,
         stacks: [vec![vec![]; NT], vec![vec![]; NT]],
         want: [vec![], vec![]],
+        gmax: 5,
     };
     let mut full: [Vec<Call>; 2] = [vec![], vec![]];
     let mut classes: Vec<String> = vec![];
@@ -1024,6 +1032,15 @@ fn run_case(case: &Case) -> Outcome {
                     })
                 }
             }
+            Op::SetMax { t, h } => {
+                let (t, h) = (t as usize % NT, 3 + h % 3);
+                m.gmax = h;
+                for sh in &shared {
+                    sh.spec.lock().unwrap().hint = Some(h);
+                }
+                classes.push(if m.guards.iter().flatten().count() > 0 { "max_level_changed_while_a_span_is_entered".into() } else { "max_level_changed".into() });
+                st.run(t, move |_| tracing_core::callsite::rebuild_interest_cache())
+            }
             Op::SwitchDefault { t, sel } => {
                 let t = t as usize % NT;
                 m.default[t] = sel;
@@ -1199,6 +1216,7 @@ impl Property for C03 {
             2 => (t(), f()).prop_map(|(t, fut)| Op::DropFuture { t, fut }),
             1 => (t(), f()).prop_map(|(t, fut)| Op::IntoInner { t, fut }),
             2 => (t(), s(), s()).prop_map(|(t, from, to)| Op::CloneFrom { t, from, to }),
+            2 => (t(), 0u8..3).prop_map(|(t, h)| Op::SetMax { t, h }),
             3 => (t(), sel.clone()).prop_map(|(t, sel)| Op::SwitchDefault { t, sel }),
         ];
         let max = tier.pick(40usize, 60usize);
